@@ -162,7 +162,7 @@ func distinctOutputs(g Dag, name string, counts map[string]int) int {
 }
 
 func checkC05(ctx *Ctx) {
-	ctx.Res.Rule = "random acyclic workflows as for C16 (several independent leaf branches, at most one process without out-ports, fan-out, multi-port processes, FromStr / ParamSource parameter streams) with stream lengths 0-7 and SCIPIPE_BUFSIZE in {1,2,3,128} so that processes have more tasks than buffer slots; non-trivial = at least two tasks; distinct by (graph, bufsize). Checks: Run returns within the limit with exit 0; in the hook trace every task's release (logged before its Done signal) precedes the return of Run; the directory listing taken at the instant of return has no temp dir / FIFO and holds the outputs."
+	ctx.Res.Rule = "random acyclic workflows as for C16 (several independent leaf branches, at most one process without out-ports, fan-out, multi-port processes, processes with two out-ports, FromStr / ParamSource parameter streams) with stream lengths 0-7 and SCIPIPE_BUFSIZE in {1,2,3,128} so that processes have more tasks than buffer slots; non-trivial = at least two tasks; distinct by (graph, bufsize). Checks: Run returns within the limit with exit 0; in the hook trace every task's release (logged before its Done signal) precedes the return of Run; the directory listing taken at the instant of return has no temp dir / FIFO and holds the outputs."
 	r := NewRng(ctx.Seed)
 	n := 30
 	if ctx.Thorough() {
